@@ -34,6 +34,7 @@ var (
 	fTier    = flag.String("verif.tier", "quick", "quick | thorough")
 	fProgress = flag.String("verif.progress", "", "progress file (last seed started)")
 	fRaceLog = flag.String("verif.racelog", "", "race detector log prefix (C19)")
+	fRepo    = flag.String("verif.repo", "/repo", "directory the instrumented tree was taken from (file paths in race reports start with it)")
 	fTrace   = flag.Bool("verif.trace", false, "print the rendered trace in replay mode")
 	fNoMin   = flag.Bool("verif.nomin", false, "do not minimise")
 	fOwns    = flag.String("verif.owns", "", "extra owned clause prefix (debugging)")
@@ -338,9 +339,13 @@ func collectFaults(sum *Summary, ep *Episode) {
 	sum.Faults["ticks_fired"] += int(ep.Ticks)
 	sum.Faults["pool_cache_drops"] += int(ep.PoolDrops)
 	for _, q := range wd.qs {
+		if q.rq != nil {
+			sum.Faults["dequeue_refused_by_user_queue"] += q.rq.Refused
+		}
 		if q.ad != nil {
 			sum.Faults["enqueue_refused"] += q.ad.FiredEnq
 			sum.Faults["dequeue_refused"] += q.ad.FiredDeq
+			sum.Faults["delivery_without_ack_id"] += q.ad.NoAckIDs
 			sum.Faults["ack_refused"] += q.ad.FiredAck
 			sum.Faults["ack_stalled"] += q.ad.FiredStall
 			sum.Faults["ack_applied_answer_lost"] += q.ad.FiredAckLost
